@@ -406,14 +406,18 @@ def gen_event_cases(rng, n):
                 other = Session(session_id=1, prng=random.Random(1), session_start_time=0, simulator=sim, name="s2")
                 ev.halting_market, ev.halting_session = mks[0], other
             cur = p0 * (1 + rng.choice([0.0, rate, -rate, 2 * rate, rate * (ev.activation_count + 1), 0.3]))
+            after_exec = rng.random() < 0.5
+            if after_exec:
+                # the fill moved the market price of the current step (at time 0 that is the reference price
+                # itself: the oracle's answers below are read off the market *after* this write)
+                mks[0]._market_prices[mks[0].time] = cur
             ext = []
             for m in mks:
                 ext.append((m, "get_market_price", [0], m.get_market_price(0)))
-                ext.append((m, "get_market_price", [], cur if m is mks[0] else m.get_market_price()))
-            if rng.random() < 0.5:
+                ext.append((m, "get_market_price", [], m.get_market_price()))
+            if after_exec:
                 log = ExecutionLog(market_id=rng.choice([0, 0, 1]), time=mks[0].get_time(), buy_agent_id=0, sell_agent_id=1,
                                    buy_order_id=0, sell_order_id=1, price=cur, volume=1)
-                mks[0]._market_prices[mks[0].time] = cur
                 yield Case("TradingHaltRule.hooked_after_execution", ev.hooked_after_execution, [ev, sim, log], ext=ext)
             else:
                 yield Case("TradingHaltRule.hooked_before_step_for_market", ev.hooked_before_step_for_market,
